@@ -2,6 +2,7 @@ package p_pool
 
 import (
 	"fmt"
+	"strings"
 	"sync"
 	"testing"
 
@@ -93,11 +94,11 @@ func newTempPool(t ev.TB, st *leveldbstorage.Storage, encs *encoder.Encoders, en
 }
 
 // noPanic runs f; a panic inside mitum code is reported as a violation with signature sig (unless the panic is
-// rapid unwinding after a violation that was already reported). It returns true when f panicked.
+// rapid unwinding after t.Fatalf, recognised by its type so that re-executions fail identically). It returns true when f panicked.
 func noPanic(t ev.TB, r *ev.Rec, sig, what string, f func()) (panicked bool) {
 	defer func() {
 		if x := recover(); x != nil {
-			if r.Failed() {
+			if isRapidUnwind(x) {
 				panic(x)
 			}
 
@@ -110,4 +111,10 @@ func noPanic(t ev.TB, r *ev.Rec, sig, what string, f func()) (panicked bool) {
 	f()
 
 	return false
+}
+
+// isRapidUnwind reports whether a recovered value is rapid's own unwinding after t.Fatalf (a harness failure that
+// happened inside a callback running below mitum code); such a panic must travel on, it is not a panic of mitum.
+func isRapidUnwind(x any) bool {
+	return strings.HasPrefix(fmt.Sprintf("%T", x), "rapid.")
 }
